@@ -148,6 +148,9 @@ pub fn run(args: &Args) {
             pkgs.push((a.rsplit('/').next().unwrap().to_string(), Package::parse(&mut &b[..]).unwrap()));
         }
     }
+    if args.get("families") == Some("hash") {
+        pkgs.clear();
+    }
     for (pi, (name, pkg)) in pkgs.iter().enumerate() {
         let mut canon = vec![];
         pkg.write(&mut canon).unwrap();
